@@ -300,5 +300,10 @@ func (m *Menu) reset() {
 func (m *Menu) Reset() {
 	m.menu = [][2]string{}
 	m.sink = false
+	m.keep = true
+	m.pageCount = 0
+	m.browse = BrowseConfig{}
+	m.canNext = false
+	m.canPrevious = false
 	m.reset()
 }
